@@ -695,7 +695,11 @@ def mon_c03(rec):
         for k, c in enumerate(rd["opt"]["out"].clusters):
             if sizes[k] < 2 and not (d.biased and sizes[k] >= 1):
                 defined_all = False
-                continue
+                # a one-window cluster has no covariance under the unbiased estimator.  The library can
+                # only meet one in round 0 (initial labelling) or when it refills with m = 1; from round 1
+                # on, with m >= 2, repopulation guarantees >= 2 windows, so a NaN MRF there is a verdict.
+                if i == 0 or d.m < 2:
+                    continue
             if d.eps > 0:
                 continue        # the floor may legitimately break definiteness; clause (b) is kernel-level
             msg = spd_violation(c.train_inverse, f"round {i} MRF {k}")
